@@ -335,3 +335,45 @@ def c08_design(rng):
     d = _top_with(hw, case.inw, case.outw, lambda top, i, o: case.ctor(py4hw, top, i, o), f'c08:{case.real}')
     d['desc'] = case.summary()
     return d
+
+
+def derived_clock_design(rng):
+    """a sub-block whose clock is a wire generated by the design itself (the pattern of the repo's Vitis kernel platform:
+    ClockDriver(name, base=system clock, wire=g, enable=g)): g is a divider register or a Sequence; the block holds a Counter / Reg"""
+    import py4hw
+    hw = py4hw.HWSystem()
+    Top = top_class()
+    top = Top(hw, 'top')
+    inc = hw.wire('inc', 1)
+    top.addIn('inc', inc)
+    g = hw.wire('g', 1)
+    w = rng.choice([2, 4, 8])
+    cnt = hw.wire('cnt', w)
+    top.addOut('g', g)
+    top.addOut('cnt', cnt)
+    if rng.chance(1, 2):
+        ng = hw.wire('ng', 1)
+        py4hw.Not(top, 'ng', g, ng)
+        py4hw.Reg(top, 'div', ng, g)
+        how = 'toggle register'
+    else:
+        e = hw.wire('e', 1)
+        top.addIn('e', e)
+        py4hw.Reg(top, 'gen', e, g)
+        how = 'registered input'
+    dut = Top(top, 'dut')
+    dut.clockDriver = py4hw.ClockDriver('clk_dut', base=hw.clockDriver, wire=g, enable=g)
+    dut.addIn('inc', inc)
+    dut.addOut('cnt', cnt)
+    if rng.chance(1, 2):
+        py4hw.Counter(dut, 'c', None, inc, cnt)
+        what = 'Counter'
+    else:
+        d = hw.wire('d', w)
+        top.addIn('d', d)
+        dut.addIn('d', d)
+        py4hw.Reg(dut, 'r', d, cnt, enable=inc)
+        what = 'Reg'
+    ins = {p.name: p.wire for p in top.inPorts}
+    return dict(hw=hw, top=top, inputs=ins, outputs={'g': g, 'cnt': cnt}, kind='derived',
+                desc=dict(clock_wire='g (' + how + ')', block=what, width=w))
